@@ -61,6 +61,13 @@ PLACES = [
     ("module-body", "let m = module {} => { let r = @E@; };\nout json {v = m{}.r};\n", {}),
     ("map-callback", "out json {v = map(func (i) => @E@, [0]).0};\n", {}),
     ("reduce-callback", "out json {v = reduce(func (acc, i) => @E@, NULL, [0])};\n", {}),
+    ("filter-callback", "out json {v = filter(func (i) => @E@ == @E@, [@E@]).0};\n", {}),
+    ("map-callback-over-tuple", "out json {v = map(func (k, x) => [k, @E@], {q = 0}).q};\n", {}),
+    ("filter-callback-over-tuple", "let t = filter(func (k, x) => @E@ == @E@, {q = 0});\nout json {v = @E@};\n", {}),
+    ("reduce-callback-over-tuple", "out json {v = reduce(func (acc, k, x) => @E@, NULL, {q = 0})};\n", {}),
+    ("map-callback-over-string", "out json {v = reduce(func (acc, c) => @E@, NULL, \"ab\")};\n", {}),
+    ("nested-function-in-callback", "let g = func (n) => @E@;\nout json {v = map(func (k, x) => [k, g(x)], {q = 0}).q};\n", {}),
+    ("module-instantiated-in-callback", "let m = module {} => (r) { let r = @E@; };\nout json {v = map(func (i) => m{}, [0]).0};\n", {}),
     ("tuple-field", "let t = {k = @E@};\nout json {v = t.k};\n", {}),
     ("select-arm", "out json {v = select (\"a\") => {a = @E@}};\n", {}),
     ("format-argument", "out json {v = \"@\" % (@E@)};\n", {}),
@@ -129,6 +136,17 @@ def work(chunk):
                     null_v = "NULL" if place == "format-argument" else None
                     if rc != 0 or not isinstance(art, dict) or "v" not in art or art["v"] != null_v:
                         bad = ("read-from:%s:unset-nostrict:not-null" % place, {"rc": rc, "artifact": art, "stderr": err[-300:]})
+            elif kind == "read-two":
+                n1, q1, n2, q2, strict = prm
+                rc, err, art = build(d, "let a = %s;\nlet b = %s;\nout json {a = a, b = b};\n" % (sel(n1, q1), sel(n2, q2)), envv, strict)
+                w1, w2 = envv.get(n1), envv.get(n2)
+                if strict and (w1 is None or w2 is None):
+                    missing = n1 if w1 is None else n2
+                    if rc != 1 or missing not in err:
+                        bad = ("read-two:unset-strict:%s" % ("exit-%s" % rc if rc != 1 else "diagnostic-does-not-name-variable"), {"artifact": art, "stderr": err[-300:]})
+                elif rc != 0 or not isinstance(art, dict) or art.get("a") != w1 or art.get("b") != w2:
+                    bad = ("read-two:%s-then-%s:%s" % ("quoted" if q1 else "bare", "quoted" if q2 else "bare", "fails" if rc != 0 else "value-altered"),
+                           {"expected": [w1, w2], "artifact": art, "rc": rc, "stderr": err[-300:]})
             elif kind == "program":
                 name, src, expect, strict = prm
                 rc, err, art = build(d, src, envv, strict)
@@ -212,6 +230,14 @@ def cases(thorough):
             for quoted in (False, True):
                 for strict in (True, False):
                     yield ("read-from", {"A": "setA", "X1": "other"}, (place, name, quoted, strict))
+    # (3c) two reads in one file: what the first read leaves behind must not matter for the second
+    names = ["A", "X1", "map", "ZZ_UNSET"]
+    for n1, n2 in itertools.product(names, repeat=2):
+        for q1, q2 in itertools.product((False, True), repeat=2):
+            if (n1 == "map" and not q1) or (n2 == "map" and not q2):
+                continue            # a keyword can only be selected quoted
+            for strict in (True, False):
+                yield ("read-two", {"A": "setA", "X1": "other", "map": "kw"}, (n1, q1, n2, q2, strict))
     # (4) programs
     for name, src, expect in PROGRAMS:
         for strict in (True, False):
